@@ -314,7 +314,9 @@ func runC11Relay(sc *RelayScript) *sim.Outcome {
 				for i := 0; i < 2; i++ {
 					if mx[i].asked {
 						mx[i].asked = false
-						out, err := mx[i].A.C.ProvideAuthenticationSecret(secs[i])
+						buf, reuse := sim.Lend(secs[i])
+						out, err := mx[i].A.C.ProvideAuthenticationSecret(buf)
+						reuse()
 						mx[i].fromA("ProvideAuthenticationSecret", nil, nil, out, err, mx[i].A.Snap(), true)
 						moved = true
 					}
@@ -325,7 +327,9 @@ func runC11Relay(sc *RelayScript) *sim.Outcome {
 			}
 		}
 	}
-	out, err := mx[a].A.C.StartAuthenticate(sc.Q, secs[a])
+	buf, reuse := sim.Lend(secs[a])
+	out, err := mx[a].A.C.StartAuthenticate(sc.Q, buf)
+	reuse()
 	mx[a].fromA("StartAuthenticate", nil, nil, out, err, mx[a].A.Snap(), true)
 	if err != nil {
 		return o.Fail("C11/start-error", "StartAuthenticate failed: %v", err)
